@@ -65,6 +65,19 @@ def variants(tree, fnode, ops):
                 yield ('delete', n.lineno, ast.unparse(n)[:90], ('delete', i))
             if 'early' in ops:
                 yield ('early', n.lineno, 'if _SWEEP_: return  # before: ' + ast.unparse(n)[:70], ('early', i))
+        # ---- behaviour-preserving operators (mode --equiv): every one of them must leave all statuses unchanged
+        if 'hoist' in ops and isinstance(n, ast.If) and not isinstance(n.test, ast.Name):
+            yield ('hoist', n.lineno, 'if ' + ast.unparse(n.test)[:80], ('hoist', i))
+        if 'negif' in ops and isinstance(n, ast.If) and n.orelse and not (len(n.orelse) == 1 and isinstance(n.orelse[0], ast.If)):
+            yield ('negif', n.lineno, 'if ' + ast.unparse(n.test)[:80], ('negif', i))
+        if 'cmpflip' in ops and isinstance(n, ast.Compare) and len(n.ops) == 1 and type(n.ops[0]) in (ast.Lt, ast.LtE, ast.Gt, ast.GtE):
+            yield ('cmpflip', n.lineno, ast.unparse(n)[:90], ('cmpflip', i))
+        if 'mulswap' in ops and isinstance(n, ast.BinOp) and isinstance(n.op, ast.Mult) and not any(
+                isinstance(x, (ast.List, ast.Tuple, ast.Constant)) and not isinstance(getattr(x, 'value', 0), (int, float))
+                for x in (n.left, n.right)):
+            yield ('mulswap', n.lineno, ast.unparse(n)[:90], ('mulswap', i))
+        if 'unused' in ops and isinstance(n, ast.stmt) and n is not fnode and simple(n) and not is_doc(n):
+            yield ('unused', n.lineno, '_unused = 0  # before: ' + ast.unparse(n)[:60], ('unused', i))
         if 'cmp' in ops and isinstance(n, ast.Compare) and len(n.ops) == 1:
             m = {ast.Lt: ast.LtE, ast.LtE: ast.Lt, ast.Gt: ast.GtE, ast.GtE: ast.Gt, ast.Eq: ast.NotEq,
                  ast.NotEq: ast.Eq}.get(type(n.ops[0]))
@@ -87,6 +100,22 @@ def variants(tree, fnode, ops):
                 yield ('args', n.lineno, ast.unparse(n)[:90], ('args', i))
 
 
+def local_names(fnode):
+    params = {a.arg for a in fnode.args.args + fnode.args.kwonlyargs + fnode.args.posonlyargs}
+    if fnode.args.vararg:
+        params.add(fnode.args.vararg.arg)
+    if fnode.args.kwarg:
+        params.add(fnode.args.kwarg.arg)
+    stored = set()
+    glob = set()
+    for n in ast.walk(fnode):
+        if isinstance(n, ast.Name) and isinstance(n.ctx, ast.Store):
+            stored.add(n.id)
+        if isinstance(n, (ast.Global, ast.Nonlocal)):
+            glob.update(n.names)
+    return sorted(stored - params - glob)
+
+
 def apply(tree, fpath, edit):
     """deep-copy the module, locate the function by its path of (field, index) and apply the edit"""
     t = copy.deepcopy(tree)
@@ -95,7 +124,42 @@ def apply(tree, fpath, edit):
         f = getattr(f, fld)[idx]
     nodes = list(ast.walk(f))
     kind, i = edit
-    n = nodes[i]
+    n = nodes[i] if isinstance(i, int) else None
+    if kind == 'rename':
+        for x in ast.walk(f):
+            if isinstance(x, ast.Name) and x.id == i:
+                x.id = i + '_rn'
+        return t
+    if kind == 'rename':
+        return None
+    if kind in ('hoist', 'negif', 'unused'):
+        n = nodes[i]
+        for p in ast.walk(f):
+            for fld in ('body', 'orelse', 'finalbody'):
+                lst = getattr(p, fld, None)
+                if isinstance(lst, list) and n in lst:
+                    k = lst.index(n)
+                    if kind == 'hoist':
+                        lst.insert(k, ast.Assign(targets=[ast.Name(id='_hoisted_c', ctx=ast.Store())], value=n.test))
+                        n.test = ast.Name(id='_hoisted_c', ctx=ast.Load())
+                    elif kind == 'negif':
+                        n.test = ast.UnaryOp(op=ast.Not(), operand=n.test)
+                        n.body, n.orelse = n.orelse, n.body
+                    else:
+                        lst.insert(k, ast.Assign(targets=[ast.Name(id='_unused', ctx=ast.Store())], value=ast.Constant(value=0)))
+                    ast.fix_missing_locations(t)
+                    return t
+        return None
+    if kind == 'cmpflip':
+        n = nodes[i]
+        m = {ast.Lt: ast.Gt, ast.LtE: ast.GtE, ast.Gt: ast.Lt, ast.GtE: ast.LtE}
+        n.left, n.comparators[0] = n.comparators[0], n.left
+        n.ops = [m[type(n.ops[0])]()]
+        return t
+    if kind == 'mulswap':
+        n = nodes[i]
+        n.left, n.right = n.right, n.left
+        return t
     if kind in ('guard', 'delete', 'early'):
         # find parent list
         for p in ast.walk(f):
@@ -191,9 +255,14 @@ def main():
     ap.add_argument('prop')
     ap.add_argument('--ops', default='guard,delete,cmp,arith,const,bool,args')
     ap.add_argument('--site', default='')
-    ap.add_argument('--show', default='survived,error,crash')
+    ap.add_argument('--show', default=None)
+    ap.add_argument('--equiv', action='store_true', help='behaviour-preserving operators; any changed status is a false alarm')
     args = ap.parse_args()
     ops = set(args.ops.split(','))
+    if args.equiv:
+        ops = {'rename', 'hoist', 'negif', 'cmpflip', 'mulswap', 'unused'}
+        args.show = args.show or 'viol,error,crash'
+    args.show = args.show or 'survived,error,crash'
     ix = Index()
     st, R = run_property(args.prop, 'quick', quiet=True, base=None, evidence=False)
     base = _statuses(R)
@@ -217,6 +286,9 @@ def main():
             continue
         for op, line, desc, edit in variants(ix.modules[rel].tree, f.node, ops):
             jobs.append((rel, fp, op, line, '%s: %s' % (f.qualname, desc), edit))
+        if 'rename' in ops:
+            for nm in local_names(f.node):
+                jobs.append((rel, fp, 'rename', f.node.lineno, '%s: local %s -> %s_rn' % (f.qualname, nm, nm), ('rename', nm)))
     print('%s: %d functions with obligations, %d variants' % (args.prop, len(seenf), len(jobs)))
     ctx = multiprocessing.get_context('fork')
     with ctx.Pool(16) as pool:
